@@ -104,6 +104,64 @@ def finder_calls(rng: random.Random, mol, seg):
     return out
 
 
+def e2e_molecule_indels(args):
+    """sv/molecule_indels.run on the files the real COMA writes in mode 'all' (joined / first pass / second pass) for
+    a generated input with split and indel molecules; returns Trace_Indels lines of kind 'flank' for every un-merged
+    call of the written indel file"""
+    import shutil
+    from lib import pipecases, pipeline
+    seed, idx, workroot = args
+    rng = random.Random(seed * 7001 + idx)
+    _, mol, _ = sv_modules()
+    inp = pipecases.make_input(rng, n_refs=1, n_qry=10, ref_labels=(140, 220), decimals=(idx % 2 == 0),
+                               kinds=["split", "indel", "split", "indel", "exact", "split", "indel", "split", "indel", "split"])
+    wd = os.path.join(workroot, f"c20e2e-{os.getpid()}-{idx}")
+    out = {"lines": [], "joined": 0, "status": "ok", "rows": 0}
+    try:
+        rp, qp = pipecases.write_input(wd, inp, "in")
+        res = pipecases.run_once(wd, rp, qp, "o", "all")
+        if res["status"] != "ok":
+            out["status"] = "coma:" + res["status"]
+            return out
+        files = pipeline.output_files(os.path.join(wd, "o.xmap"), "all")
+        joined = [r for r in res["files"]["main"]["records"] if not r.get("malformed")]
+        out["joined"] = len(joined)
+        if not joined:
+            return out
+        target = os.path.join(wd, "indels.txt")
+        try:
+            mol.run(SimpleNamespace(referenceFile=rp, queryFile=qp, joinedFile=files["main"], firstFile=files["_1"],
+                                    secondFile=files["_2"], outputFile=target))
+        except Exception as e:
+            out["status"] = "finder_raised:" + type(e).__name__
+            return out
+        ref = inp["refs"][0]
+        qmap = {q["id"]: q for q in inp["qrys"]}
+        jrec = {r["q"]: r for r in joined}
+
+        def deci(txt):
+            return int(round(float(txt) * 10))
+
+        for ln in open(target):
+            if ln.startswith("#") or not ln.strip():
+                continue
+            c = ln.rstrip("\n").split("\t")
+            out["rows"] += 1
+            if int(c[8]) != 1 or "," in c[4]:
+                continue
+            q = int(c[4])
+            if q not in jrec or q not in qmap:
+                continue
+            out["lines"].append({"kind": "flank",
+                                 "call": {"type": c[0], "chr": int(c[1]), "rs": deci(c[2]), "re": deci(c[3]), "qid": q,
+                                          "qs": deci(c[5]), "qe": deci(c[6]), "len": deci(c[7])},
+                                 "pairs": jrec[q]["pairs"], "refx": ref["x"], "qryx": qmap[q]["x"],
+                                 "tag": {"input": idx, "query": q}})
+    finally:
+        shutil.rmtree(wd, ignore_errors=True)
+    return out
+
+
 def run(ctx: Ctx):
     quick = ctx.tier == "quick"
     rng = random.Random(ctx.seed * 523 + 20)
@@ -113,7 +171,9 @@ def run(ctx: Ctx):
                 "through the real cluster_indels; both types through write_indel_file with the file parsed "
                 "independently; synthetic alignments of both orientations with one break point (shifts 150 bp..150 kb) "
                 "through both "
-                "look_for_indels_in_breakage. non-trivial = distinct list in which two consecutive calls are within "
+                "look_for_indels_in_breakage; sv/molecule_indels.run end to end on the joined / first / second pass files "
+                "the real COMA writes for inputs with split and indel molecules (every un-merged call must carry the "
+                "coordinates of two consecutive aligned pairs of that query's joined record). non-trivial = distinct list in which two consecutive calls are within "
                 "the blur of each other")
     ctx.assumptions = ["input lists are sorted by (chromosome, RefStop) as write_indel_file sorts them, RefStart <= RefStop",
                        "the averaged Length of a merged cluster is not part of the property"]
@@ -161,7 +221,22 @@ def run(ctx: Ctx):
         if listed != c["call"]["type"]:
             c["call"]["type"] = f"{c['call']['type']}_listed_under_{listed}"
     records += fc
-    payload = [{k: v for k, v in r.items() if k not in ("via", "finder")} for r in records]
+    # end to end: the molecule-based finder on COMA's own files
+    import multiprocessing as mp
+    n_e2e = 10 if quick else 150
+    with mp.get_context("fork").Pool(min(10, n_e2e)) as pool:
+        e2e = pool.map(e2e_molecule_indels, [(ctx.seed * 41 + 20, i, ctx.workdir) for i in range(n_e2e)])
+    flank = [ln for r in e2e for ln in r["lines"]]
+    ctx.notes["end_to_end_molecule_indels"] = {"inputs": n_e2e, "joined_records": sum(r["joined"] for r in e2e),
+                                               "rows_written": sum(r["rows"] for r in e2e), "unmerged_calls_judged": len(flank),
+                                               "status": sorted({r["status"] for r in e2e})}
+    for r in e2e:
+        if r["status"].startswith("finder_raised"):
+            ctx.add_drift(1, {"end_to_end": r["status"]})
+    for ln in flank:
+        ctx.nontrivial(("flank", ln["tag"]["input"], ln["tag"]["query"]))
+    records += flank
+    payload = [{k: v for k, v in r.items() if k not in ("via", "finder", "tag")} for r in records]
     verdicts, r = batch.validate("Trace_Indels", "Trace_Indels.cfg", ctx.workdir, payload)
     ctx.add_traces(len(records))
     ctx.notes["trace_validation"] = {"states": r.distinct, "wall_s": round(r.wall_s, 1), "from_tlc_exported_space": len(space),
